@@ -44,6 +44,11 @@ def patterns(g, tier):
 
 
 ORIG = {}        # (method, concretised pattern) -> generated pattern
+# exact-length settings keep every string inside the data object concrete, so gost-yescrypt (which copies the setting into its
+# scratch area and re-parses yescrypt's result there) is analysable here although the K grid cannot cover it; the scratch
+# structures lie beyond the default dense prefix of the data object, hence the larger TRACK
+COMPOSE_UNCOVERED = {}
+TRACK = 4096
 PROVS = {}       # (method, pattern) -> provenance of each generated character (1 = random bytes, 8 = count)
 P_RBYTES, P_COUNT = 1, 8
 A64 = frozenset(b"./0123456789ABCDEFGHIJKLMNOPQRSTUVWXYZabcdefghijklmnopqrstuvwxyz")
@@ -70,7 +75,7 @@ def near_miss_cells(m, g, tier):
     for method, d in sorted(pats.items()):
         fa = FIELD_ALPHABET.get(method)
         row = next(r for r in g["rows"] if G.method_of_row(r) == method)
-        if not fa or row["prefix"] in K.UNCOVERED:
+        if not fa or row["prefix"] in COMPOSE_UNCOVERED:
             continue
         items = sorted(d.items(), key=lambda kv: (len(kv[0]), kv[1]))
         chosen = [items[0]] + ([items[-1]] if len(items) > 1 else [])
@@ -114,6 +119,7 @@ def run_near_miss(tier="quick"):
     cells, meta = near_miss_cells(m, g, tier)
     kdf = [e for e in K.CONTRACTS["yescrypt_kdf"] if e.get("op") != "ret"] + [{"op": "ret", "lo": 0, "hi": 0}]
     cfg = K.config(m, {"check_badsalt_chars": [{"op": "ret", "lo": 0, "hi": 0}], "yescrypt_kdf": kdf})
+    cfg["track"] = TRACK
     from . import unit_contracts
     for k in unit_contracts.CONTRACTS:
         cfg["contracts"].pop(k, None)
@@ -157,7 +163,7 @@ def build_cells(m, g, tier):
     pats = patterns(g, tier)
     for method, d in sorted(pats.items()):
         row = next(r for r in g["rows"] if G.method_of_row(r) == method)
-        if row["prefix"] in K.UNCOVERED or method in SKIP_METHODS:
+        if row["prefix"] in COMPOSE_UNCOVERED or method in SKIP_METHODS:
             continue
         items = sorted(d.items(), key=lambda kv: (len(kv[0]), kv[1]))
         # per distinct length keep at most two patterns (quick) / eight (thorough); cost digits do not change the parser's paths
@@ -200,6 +206,7 @@ def run(tier="quick"):
     # assumptions of the composition: the generated setting is filter-clean (proved by C10 X-CLEAN) and the KDF itself
     # does not fail for resource reasons (allocation failures are C15's subject)
     cfg = K.config(m, {"check_badsalt_chars": [{"op": "ret", "lo": 0, "hi": 0}], "yescrypt_kdf": kdf})
+    cfg["track"] = TRACK
     # generated settings have exact lengths: yescrypt's parsing helpers are interpreted as they are (no contract)
     from . import unit_contracts
     for k in unit_contracts.CONTRACTS:
@@ -323,6 +330,7 @@ def run_traced(tier="quick"):
     meta.update(em)
     kdf = [e for e in K.CONTRACTS["yescrypt_kdf"] if e.get("op") != "ret"] + [{"op": "ret", "lo": 0, "hi": 0}]
     cfg = K.config(m, {"check_badsalt_chars": [{"op": "ret", "lo": 0, "hi": 0}], "yescrypt_kdf": kdf})
+    cfg["track"] = TRACK
     from . import unit_contracts
     for k in unit_contracts.CONTRACTS:
         cfg["contracts"].pop(k, None)
@@ -367,6 +375,7 @@ def run_rehash(tier="quick"):
             break
     kdf = [e for e in K.CONTRACTS["yescrypt_kdf"] if e.get("op") != "ret"] + [{"op": "ret", "lo": 0, "hi": 0}]
     cfg = K.config(m, {"check_badsalt_chars": [{"op": "ret", "lo": 0, "hi": 0}], "yescrypt_kdf": kdf})
+    cfg["track"] = TRACK
     for k in unit_contracts.CONTRACTS:
         cfg["contracts"].pop(k, None)
     cfg["traceRegions"] = ["phrase", "setting"]
